@@ -116,6 +116,14 @@ class TrajectorySH:
             if key not in options:
                 options[key] = val
 
+        # resume with the logged sign convention of the adiabatic states: a freshly
+        # computed basis may differ in sign from the one the density matrix refers to
+        reference = last_snap["electronics"].get("reference", None)
+        if reference is not None and "electronics" not in options:
+            electronics = cp.copy(model)
+            electronics.compute(np.array(x), reference=np.array(reference))
+            options["electronics"] = electronics
+
         return cls(model,
                    x,
                    p,
